@@ -543,18 +543,6 @@ func genProxy(r *hx.Rand, i int) interface{} {
 	case k < 11:
 		up.Hdr = append(up.Hdr, [2]string{"Content-Encoding", r.Pick([]string{"br", "deflate", "identity", "zstd"})})
 	}
-	// a response that reaches the front server without a Content-Type is sniffed there by net/http from whatever
-	// the first flush happens to carry (a race between ReverseProxy's flush timer and its first write): Go's own
-	// upstream server sniffs a type unless the response is encoded, so encoded responses always declare theirs
-	if up.Encode != "" || len(up.Hdr) > 0 && up.Hdr[len(up.Hdr)-1][0] == "Content-Encoding" {
-		hasCT := false
-		for _, kv := range up.Hdr {
-			hasCT = hasCT || http.CanonicalHeaderKey(kv[0]) == "Content-Type"
-		}
-		if !hasCT {
-			up.Hdr = append(up.Hdr, [2]string{"Content-Type", r.Pick(upTypes)})
-		}
-	}
 	up.CL = r.Chance(1, 2)
 	if r.Chance(1, 10) {
 		inf := UpInfo{Code: []int{103, 103, 102}[r.Intn(3)], Hdr: [][2]string{}}
@@ -583,6 +571,24 @@ func genProxy(r *hx.Rand, i int) interface{} {
 			up.Chunks = append(up.Chunks, Op{Op: "fl"})
 		}
 		up.Chunks = append(up.Chunks, w)
+	}
+	// A response that reaches the front server without a Content-Type is sniffed there by net/http from whatever its
+	// first flush carries — nothing, when a flush precedes the first byte (a race between ReverseProxy's flush timer
+	// and its first write), and always the buffered prefix behind the gzip writer, which swallows the flushes: the
+	// recorded class sniffed-type-differs. Go's own upstream server declares a sniffed type unless the response is
+	// encoded or its header is flushed before the first byte; those responses declare theirs here.
+	hasCT, hasCE := false, up.Encode != ""
+	for _, kv := range up.Hdr {
+		hasCT = hasCT || http.CanonicalHeaderKey(kv[0]) == "Content-Type"
+		hasCE = hasCE || http.CanonicalHeaderKey(kv[0]) == "Content-Encoding"
+	}
+	firstData := false
+	if len(up.Chunks) > 0 && up.Chunks[0].Op == "w" {
+		b, _ := chunkBytes(up.Chunks[0])
+		firstData = len(b) > 0
+	}
+	if !hasCT && (hasCE || !firstData || len(up.Info) > 0) {
+		up.Hdr = append(up.Hdr, [2]string{"Content-Type", r.Pick(upTypes)})
 	}
 	if up.Chunks == nil {
 		up.Chunks = []Op{}
